@@ -10,6 +10,9 @@
 #include <string.h>
 #include <stdio.h>
 #include <stdarg.h>
+#ifdef NANOLANG_VERIF
+#include <unistd.h>
+#endif
 
 /* ========================================================================
  * Error Handling
@@ -85,7 +88,14 @@ void vm_init(VmState *vm, const NvmModule *module) {
     vm_heap_init(&vm->heap);
 }
 
+#ifdef NANOLANG_VERIF
+static void vm_verif_final(VmState *vm);
+#endif
+
 void vm_destroy(VmState *vm) {
+#ifdef NANOLANG_VERIF
+    vm_verif_final(vm);   /* hook H2: live objects while the roots are still held */
+#endif
     /* Release all globals */
     for (uint32_t i = 0; i < vm->global_count; i++) {
         vm_release(&vm->heap, vm->globals[i]);
@@ -96,6 +106,10 @@ void vm_destroy(VmState *vm) {
     }
     free(vm->stack);
     free(vm->linked_modules);
+#ifdef NANOLANG_VERIF
+    vm->stack_size = 0;
+    vm_verif_final(vm);   /* hook H2: objects still allocated after every root was released */
+#endif
     vm_heap_destroy(&vm->heap);
 }
 
@@ -185,6 +199,152 @@ static inline VmTrap trap_error(VmState *vm, VmResult err, const char *fmt, ...)
     return t;
 }
 
+#ifdef NANOLANG_VERIF
+/* ========================================================================
+ * Verification hook H2: heap audit at instruction boundaries.
+ * Walks the roots (operand stack, globals) and every container reachable
+ * from them, counts the references to each object and checks that
+ *   (i)  every referenced object is still live (registered), and
+ *   (ii) ref_count >= number of references found.
+ * Enabled with NANOLANG_VERIF_AUDIT=<stride> (audit every <stride> instructions).
+ * ======================================================================== */
+typedef struct { void *obj; uint32_t indeg; uint8_t tag; } VerifNode;
+static VerifNode *va_nodes = NULL;
+static size_t va_cap = 0, va_count = 0;
+static NanoValue *va_work = NULL;
+static size_t va_work_cap = 0, va_work_n = 0;
+static unsigned long va_audits = 0, va_max_indeg = 0, va_max_objects = 0;
+static long va_stride = -1;
+static long va_countdown = 0;
+
+static size_t va_slot(void *p) { return (size_t)(((uintptr_t)p >> 4) * 11400714819323198485ull) & (va_cap - 1); }
+
+static VerifNode *va_find_or_add(void *p, uint8_t tag, bool *added) {
+    if ((va_count + 1) * 2 > va_cap) {
+        size_t ncap = va_cap ? va_cap * 2 : 1024;
+        VerifNode *nn = calloc(ncap, sizeof(VerifNode));
+        if (!nn) return NULL;
+        size_t oc = va_cap; VerifNode *old = va_nodes;
+        va_nodes = nn; va_cap = ncap;
+        for (size_t i = 0; i < oc; i++) if (old[i].obj) {
+            size_t k = va_slot(old[i].obj);
+            while (va_nodes[k].obj) k = (k + 1) & (va_cap - 1);
+            va_nodes[k] = old[i];
+        }
+        free(old);
+    }
+    size_t k = va_slot(p);
+    while (va_nodes[k].obj) {
+        if (va_nodes[k].obj == p) { *added = false; return &va_nodes[k]; }
+        k = (k + 1) & (va_cap - 1);
+    }
+    va_nodes[k].obj = p; va_nodes[k].indeg = 0; va_nodes[k].tag = tag;
+    va_count++;
+    *added = true;
+    return &va_nodes[k];
+}
+
+static void va_push(NanoValue v) {
+    if (va_work_n == va_work_cap) {
+        size_t nc = va_work_cap ? va_work_cap * 2 : 1024;
+        NanoValue *nw = realloc(va_work, nc * sizeof(NanoValue));
+        if (!nw) return;
+        va_work = nw; va_work_cap = nc;
+    }
+    va_work[va_work_n++] = v;
+}
+
+static void va_ref(NanoValue v, const char *where) {
+    if (!val_is_heap_obj(v) && v.tag != TAG_FUNCTION) return;
+    void *p = v.as.obj;
+    if (!p) return;
+    if (!vm_verif_is_live(p)) {
+        if (v.tag == TAG_FUNCTION) return;   /* plain function index, not a closure object */
+        vm_verif_report(where, p);
+        return;
+    }
+    bool added = false;
+    VerifNode *n = va_find_or_add(p, v.tag, &added);
+    if (!n) return;
+    n->indeg++;
+    if (added) va_push(v);
+}
+
+void vm_verif_audit(VmState *vm) {
+    va_audits++;
+    if (va_nodes) memset(va_nodes, 0, va_cap * sizeof(VerifNode));
+    va_count = 0; va_work_n = 0;
+    for (uint32_t i = 0; i < vm->stack_size; i++) va_ref(vm->stack[i], "operand stack / local references a freed object");
+    for (uint32_t i = 0; i < vm->global_count && i < VM_MAX_GLOBALS; i++) va_ref(vm->globals[i], "global references a freed object");
+    while (va_work_n > 0) {
+        NanoValue v = va_work[--va_work_n];
+        switch (v.tag) {
+            case TAG_ARRAY:
+                for (uint32_t i = 0; i < v.as.array->length; i++) va_ref(v.as.array->elements[i], "array element references a freed object");
+                break;
+            case TAG_STRUCT:
+                for (uint32_t i = 0; i < v.as.sval->field_count; i++) va_ref(v.as.sval->fields[i], "struct field references a freed object");
+                if (v.as.sval->field_names)
+                    for (uint32_t i = 0; i < v.as.sval->field_count; i++)
+                        if (v.as.sval->field_names[i]) va_ref(val_string(v.as.sval->field_names[i]), "struct field name references a freed string");
+                break;
+            case TAG_UNION:
+                for (uint32_t i = 0; i < v.as.uval->field_count; i++) va_ref(v.as.uval->fields[i], "union field references a freed object");
+                break;
+            case TAG_TUPLE:
+                for (uint32_t i = 0; i < v.as.tuple->count; i++) va_ref(v.as.tuple->elements[i], "tuple element references a freed object");
+                break;
+            case TAG_FUNCTION:
+                if (v.as.closure->header.obj_type == TAG_FUNCTION)
+                    for (uint16_t i = 0; i < v.as.closure->capture_count; i++) va_ref(v.as.closure->captures[i], "closure capture references a freed object");
+                break;
+            case TAG_HASHMAP:
+                for (uint32_t b = 0; b < v.as.hashmap->bucket_count; b++)
+                    for (VmHMEntry *e = v.as.hashmap->buckets[b]; e; e = e->next) {
+                        va_ref(e->key, "hashmap key references a freed object");
+                        va_ref(e->value, "hashmap value references a freed object");
+                    }
+                break;
+            default:
+                break;
+        }
+    }
+    if (va_count > va_max_objects) va_max_objects = va_count;
+    for (size_t i = 0; i < va_cap; i++) {
+        if (!va_nodes[i].obj) continue;
+        VmHeapHeader *h = (VmHeapHeader *)va_nodes[i].obj;
+        if (va_nodes[i].indeg > va_max_indeg) va_max_indeg = va_nodes[i].indeg;
+        if (h->ref_count < va_nodes[i].indeg) {
+            char msg[128];
+            snprintf(msg, sizeof msg, "ref_count %u < %u references found (tag %u) for object", h->ref_count, va_nodes[i].indeg, va_nodes[i].tag);
+            vm_verif_report(msg, va_nodes[i].obj);
+        }
+    }
+}
+
+static void vm_verif_tick(VmState *vm) {
+    if (va_stride < 0) {
+        const char *e = getenv("NANOLANG_VERIF_AUDIT");
+        va_stride = e ? atol(e) : 0;
+        va_countdown = va_stride;
+    }
+    if (va_stride <= 0) return;
+    if (--va_countdown > 0) return;
+    va_countdown = va_stride;
+    vm_verif_audit(vm);
+}
+
+static void vm_verif_final(VmState *vm) {
+    if (!vm_verif_enabled()) return;
+    char buf[256];
+    int n = snprintf(buf, sizeof buf, "VERIF-HEAP-STATS live=%zu registry=%zu allocated=%zu freed=%zu audits=%lu max_indegree=%lu max_reachable=%lu\n",
+                     vm->heap.stats.num_objects, vm_verif_live_count(), vm->heap.stats.allocated, vm->heap.stats.freed,
+                     va_audits, va_max_indeg, va_max_objects);
+    const char *e = getenv("NANOLANG_VERIF_FD");
+    if (n > 0) { ssize_t w = write(e ? atoi(e) : 2, buf, (size_t)n); (void)w; }
+}
+#endif
+
 /* ========================================================================
  * Core Execution Engine (the "processor")
  *
@@ -206,6 +366,7 @@ VmTrap vm_core_execute(VmState *vm) {
 #ifdef NANOLANG_VERIF
         /* Verification hook H1: optional instruction budget so that hostile
          * loops end deterministically (see /verif/DESIGN.md section 4). */
+        vm_verif_tick(vm);
         if (nanolang_verif_fuel >= 0) {
             if (nanolang_verif_fuel == 0) {
                 return trap_error(vm, VM_ERR_NOT_IMPLEMENTED, "verif: instruction budget exhausted");
